@@ -104,6 +104,23 @@ class Interp:
         except _Return as r:
             return r.v
 
+    def apply_closure(self, clo, args, depth=0):
+        """call a closure value produced by evaluating a closure expression"""
+        if not (isinstance(clo, tuple) and len(clo) == 3 and clo[0] == "__closure"):
+            raise Unsupported("not a closure")
+        _, node, cenv = clo
+        env = dict(cenv)
+        params = node.get("params") or []
+        if len(params) != len(args):
+            raise Unsupported("closure arity")
+        for p, a in zip(params, args):
+            if not self.bind(p["pat"], a, env):
+                raise Unsupported("closure param pattern")
+        try:
+            return self.ev(node["body"], env, depth + 1)
+        except _Return as r:
+            return r.v
+
     # ---- patterns ------------------------------------------------------------------------------
     def bind(self, pat, v, env):
         k = pat.get("k")
@@ -303,9 +320,14 @@ class Interp:
             if l.get("k") == "local":
                 env[l["name"]] = v
                 return ()
-            if l.get("k") == "field" and H.place(l):
-                env["@" + H.place(l)] = v
-                return ()
+            if l.get("k") == "field":
+                base = self.ev(l["base"], env, depth)
+                if isinstance(base, dict):
+                    base[l["name"]] = v      # `&mut self` semantics: the struct is shared by reference
+                    return ()
+                if H.place(l):
+                    env["@" + H.place(l)] = v
+                    return ()
             raise Unsupported("assignment target")
         if k == "assignop":
             l = H.peel_ref(e["l"])
@@ -323,6 +345,8 @@ class Interp:
                 raise Unsupported("assignop %s" % e["op"])
             if l.get("k") == "local":
                 env[l["name"]] = nv
+            elif l.get("k") == "field" and isinstance(self.ev(l["base"], env, depth), dict):
+                self.ev(l["base"], env, depth)[l["name"]] = nv
             elif l.get("k") == "field" and H.place(l):
                 env["@" + H.place(l)] = nv
             else:
@@ -330,6 +354,7 @@ class Interp:
             return ()
         if k == "field":
             pl = H.place(e)
+            base = None
             if pl and ("@" + pl) in env:
                 return env["@" + pl]
             base = self.ev(e["base"], env, depth)
@@ -436,6 +461,18 @@ class Interp:
         if c in ("core::result::Result::Ok", "core::result::Result::Err"):
             return (c.rsplit("::", 1)[-1], self.ev(e["args"][0], env, depth))
         # transparent std helpers
+        if e.get("k") == "mcall" and name in ITER_BUILTINS:
+            recv = self.ev(e["recv"], env, depth)
+            if isinstance(recv, (str, list)):
+                args = [self.ev(a, env, depth) for a in e.get("args") or []]
+                return ITER_BUILTINS[name](self, recv, args, depth)
+        if e.get("k") == "mcall" and name == "to_string" and not e.get("args"):
+            v = self.ev(e["recv"], env, depth)
+            if isinstance(v, str):
+                return v
+            if isinstance(v, (Ch, int)) and not isinstance(v, bool):
+                return self.display(v)
+            raise Unsupported("to_string of %r" % (v,))
         if e.get("k") == "mcall" and name in ("as_ref", "deref", "borrow", "clone", "to_owned", "as_str", "into", "unwrap", "as_mut", "by_ref") and not e.get("args"):
             v = self.ev(e["recv"], env, depth)
             if name == "unwrap":
@@ -465,7 +502,11 @@ class Interp:
         if e.get("k") == "mcall" and name in ("write_fmt", "write_str", "push_str", "push", "write_char"):
             recv = H.place(e["recv"])
             a = self.ev(e["args"][0], env, depth)
-            self.out.append((recv, self.display(a) if not isinstance(a, str) else a))
+            txt = self.display(a) if not isinstance(a, str) else a
+            self.out.append((recv, txt))
+            r0 = H.peel_ref(e["recv"])
+            if r0.get("k") == "local" and isinstance(env.get(r0["name"]), str):
+                env[r0["name"]] = env[r0["name"]] + txt      # a local String buffer
             return ("Ok", ())
         if e.get("k") == "mcall" and name in ("len", "is_empty") and not e.get("args"):
             v = self.ev(e["recv"], env, depth)
@@ -483,3 +524,32 @@ class Interp:
             args = [self.ev(a, env, depth) for a in e.get("args") or []]
             return self.call_fn(target, recv + args, depth + 1)
         raise Unsupported("call %s" % (c or decl))
+
+
+def _chars(it, recv, args, depth):
+    if not isinstance(recv, str):
+        raise Unsupported("chars on non-string")
+    return [Ch(c) for c in recv]
+
+
+def _take(it, recv, args, depth):
+    return list(recv)[:args[0]]
+
+
+def _all(it, recv, args, depth):
+    for x in recv:
+        if not it._bool(it.apply_closure(args[0], [x], depth)):
+            return False
+    return True
+
+
+def _any(it, recv, args, depth):
+    for x in recv:
+        if it._bool(it.apply_closure(args[0], [x], depth)):
+            return True
+    return False
+
+
+ITER_BUILTINS = {"chars": _chars, "take": _take, "all": _all, "any": _any,
+                 "iter": lambda it, r, a, d: list(r), "into_iter": lambda it, r, a, d: list(r),
+                 "skip": lambda it, r, a, d: list(r)[a[0]:], "rev": lambda it, r, a, d: list(reversed(list(r)))}
